@@ -469,7 +469,7 @@ pub fn check_table(t: &Table, s: &Settings, stream: &[Item], rng: &mut Rng, c: &
     Ok(())
 }
 
-pub fn run_case(seed: u64, case: u64, scratch: &Path, c: &mut Counters, small: bool) -> (Option<Violation>, J, u64, bool) {
+pub fn run_case(seed: u64, case: u64, scratch: &Path, c: &mut Counters, small: bool, probe_budget: usize) -> (Option<Violation>, J, u64, bool) {
     let mut rng = Rng::derive(seed, case ^ 0x7ab1e);
     let s = Settings::random(&mut rng, small);
     let stream = gen_stream(&mut rng, if small { 60 } else { 400 }, small);
@@ -507,7 +507,7 @@ pub fn run_case(seed: u64, case: u64, scratch: &Path, c: &mut Counters, small: b
         bump(c, &format!("setting:bloom={}", s.bloom), 1);
         bump(c, &format!("setting:hash={}", s.hash_ratio), 1);
         bump(c, &format!("setting:global_seqno_nonzero={}", s.global_seqno > 0), 1);
-        check_table(&t, &s, &stream, &mut rng, c, if small { 120 } else { 600 })
+        check_table(&t, &s, &stream, &mut rng, c, if probe_budget > 0 { probe_budget } else if small { 120 } else { 600 })
     }));
     let _ = std::fs::remove_file(&path);
     let v = match r {
@@ -527,6 +527,7 @@ pub fn cmd(args: &Args) -> i32 {
     let max_cases = args.u("cases", 100);
     let limit = Duration::from_secs(args.u("time-limit", 30));
     let small = args.s("small", "false") == "true";
+    let probe_budget = args.u("probe-budget", 0) as usize;
     let out = args.s("out", "");
     let replay_dir = std::path::PathBuf::from(args.s("replay-dir", "/verif/replays"));
     let scratch = crate::scratch_dir(args);
@@ -543,7 +544,7 @@ pub fn cmd(args: &Args) -> i32 {
     let mut cases = 0;
     while cases < max_cases && start.elapsed() < limit {
         let case_no = shard * 1_000_000 + cases;
-        let (v, sample, hash, nt) = run_case(seed, case_no, &scratch, &mut c, small);
+        let (v, sample, hash, nt) = run_case(seed, case_no, &scratch, &mut c, small, probe_budget);
         cases += 1;
         hashes.insert(hash);
         if nt {
@@ -561,6 +562,7 @@ pub fn cmd(args: &Args) -> i32 {
                 o.set("seed", J::i(seed));
                 o.set("case", J::i(case_no));
                 o.set("small", J::Bool(small));
+                o.set("probe_budget", J::i(probe_budget));
                 o.set("case_description", sample);
                 let mut vj = J::obj();
                 vj.set("tags", J::Arr(v.tags.iter().map(|t| J::s(t.clone())).collect()));
@@ -602,7 +604,8 @@ pub fn replay(j: &J, scratch: &Path) -> i32 {
     let case = j.get("case").and_then(J::as_i64).unwrap_or(0) as u64;
     let small = matches!(j.get("small"), Some(J::Bool(true)));
     let mut c = Counters::new();
-    let (v, sample, _, _) = run_case(seed, case, scratch, &mut c, small);
+    let pb = j.get("probe_budget").and_then(J::as_i64).unwrap_or(0) as usize;
+    let (v, sample, _, _) = run_case(seed, case, scratch, &mut c, small, pb);
     match v {
         Some(v) => {
             println!("REPLAY-VIOLATION tags={} sig={}", v.tags.join(","), v.sig);
